@@ -717,6 +717,12 @@ fn table() -> Vec<(&'static str, Ret, String)> {
         // several exits of the same kind whose live sets differ
         ("clean-returns-differ", Ret::U32, f("u32", "let a = mk(1); if c { return 1; } let b = mk(2); if n == 1 { return id(a); } if n == 2 { let z = mk(3); if m == 1 { return id(z) + id(b); } } 4")),
         ("clean-accepts-differ", Ret::Verdict, format!("{pre}filtermap main({p}) {{ let a = mk(1); if c {{ accept a }} let b = \"x\" + s; if n == 1 {{ reject b }} let z = mk(3); if m == 1 {{ accept z }} reject b }}\n")),
+        // values nobody uses: loop elements, match bindings, discarded results, constants
+        ("clean-for-unused-element", Ret::U32, f("u32", "let k = 0; for e in many(n) { k = k + 1; } for e in [t, mk(1)] { if c { return k; } } k")),
+        ("clean-match-unused-binding", Ret::U32, f("u32", "let a = match opt(t, c) { Some(y) => 1, None => 2 }; a + match E.B(s, mk(3)) { B(q, x) => 1, A(x) => 2, C => 3 }")),
+        ("clean-discard", Ret::U32, f("u32", "mk(1); name(mk(2)); many(n); [t]; f\"a{n}\"; opt(mk(4), c); E.A(mk(5)); R { a: mk(6), b: s, k: 1 }; 3")),
+        ("clean-constants", Ret::U32, f("u32", "let a = KT; let i = 0; while i < n { let b = KS; i = i + id(KT) + slen(b); } id(a) + slen(KS)")),
+        ("clean-assign-rhs-exits", Ret::U32, f("u32", "let x = mk(1); x = if c { return 7 } else { mk(2) }; let r = R { a: x, b: s, k: n }; r.a = if n == 1 { return 8 } else { t }; id(r.a)")),
         // exits while other compiler-internal values are pending
         ("clean-for-return", Ret::U32, f("u32", "for e in many(n) { if id(e) == m { return 1; } } 0")),
         ("clean-match-scrutinee-return", Ret::U32, f("u32", "match E.B(s, t) { B(q, x) => { if c { return 1; } slen(q) + id(x) }, A(x) => id(x), C => 0 }")),
